@@ -142,6 +142,20 @@ def run(ctx):
                 if n != 1 or word is None or word not in lang:
                     viol.append({'property': 'C16', 'kind': 'not-in-language', 'word': word, 'pt': str(pt),
                                  'witness': {'spec': spec, 'us': [f2h(u) for u in used_u], 'ks': sc.used_k}})
+                # inside the selected group every value is equally likely: one uniform draw per position, the k-th value taken
+                want_word, ok_draws = '', len(sc.used_k) == len(pt)
+                if ok_draws:
+                    for (t, j), k in zip(pt, sc.used_k):
+                        val = pcfg.grammar[t][j]['values'][k]
+                        if t[0] == 'C':
+                            tail = want_word[len(want_word) - len(val):]
+                            want_word = want_word[:len(want_word) - len(val)] + ''.join(c if m == 'L' else c.upper() for c, m in zip(tail, val))
+                        else:
+                            want_word += val
+                if not ok_draws or want_word != word:
+                    viol.append({'property': 'C16', 'kind': 'not-uniform-within-group', 'word': word, 'want': want_word if ok_draws else None,
+                                 'uniform_draws': len(sc.used_k), 'positions': len(pt), 'pt': str(pt),
+                                 'witness': {'spec': spec, 'us': [f2h(u) for u in used_u], 'ks': sc.used_k}})
                 # the selected group is the first whose running sum reaches the draw
                 for pos, ((t, j), u) in enumerate(zip(pt, used_u[1:])):
                     cur, want = 0, 0
